@@ -323,6 +323,9 @@ GO_SEEDS = {
     'd2': ([('a', 1), ('a', 2)], [('a', 3), ('b', 1), ('b', 2), ('a', 1), ('c', 1), ('b', 3)]),
     'd3': ([('a', 1, 'x')], [('a', 1, 'y'), ('a', 2, 'x'), ('b', 1, 'x'), ('a', 1, 'x'), ('b', 1, 'y'), ('a', 3, 'x')]),
     'd2-empty': ([], [('a', 1), ('a', 2), ('b', 1), ('a', 1)]),
+    # depth 3 built as a PRODUCT (sibling parents start out with one and the same sub-level): growth under one parent must not show under the others
+    'd3-product': ([(o, m, l) for o in ('a', 'b') for m in (1, 2) for l in ('x', 'y')], [('b', 2, 'z'), ('b', 3, 'x'), ('c', 1, 'x'), ('b', 1, 'x'), ('b', 3, 'y'), ('c', 2, 'y')]),
+    'd3-product-via-static': ([(o, m, l) for o in ('a', 'b') for m in (1, 2) for l in ('x', 'y')], [('b', 2, 'z'), ('b', 3, 'x'), ('c', 1, 'x'), ('b', 1, 'x'), ('b', 3, 'y'), ('c', 2, 'y')]),
     'd2-widths': ([('a', 'x')], [('a', 'yy'), ('b', 'zzz'), ('b', 'x'), ('a', 'x'), ('cc', 'y'), ('b', 'yy')]),
 }
 READS = ['values', 'values_at_depth', 'len', 'iter', 'loc_to_iloc(last)', 'copy', 'label_widths', 'HLoc[:,last-inner]']
@@ -347,6 +350,10 @@ def run_history(case, ctx):
     dd = len(pool[0])
 
     def mk():
+        if seed == 'd3-product':
+            return sf.IndexHierarchyGO.from_product(('a', 'b'), (1, 2), ('x', 'y'))
+        if seed == 'd3-product-via-static':
+            return sf.IndexHierarchyGO(sf.IndexHierarchy.from_product(('a', 'b'), (1, 2), ('x', 'y')))
         if init:
             return sf.IndexHierarchyGO.from_labels(init)
         return sf.IndexHierarchyGO(sf.IndexHierarchy.from_labels([('q', 0)] if dd == 2 else [('q', 0, 'q')]).iloc[:0]) if False else sf.IndexHierarchyGO.from_labels([pool[1]]).iloc[:0] if False else None
